@@ -417,6 +417,7 @@ func checkFloors() []string {
 		bad = append(bad, "strace fault injection is unavailable: no crash point and no controlled schedule was run")
 	}
 	need("crash:judged-kills", run.Scale(60, 600))
+	need("ioerr:operation-failed", run.Scale(15, 150))
 	need("conc:controlled-overlap-verified", run.Scale(4, 30))
 	need("conc:free-cases-judged", run.Scale(250, 60000))
 	need("conc:race-detector-cases", run.Scale(250, 60000))
